@@ -684,6 +684,10 @@ partial def loop (h : IO.FS.Stream) (out : IO.FS.Stream) (ss : Slots) (quiet : B
   else if t == "mode quiet" then
     out.putStrLn "> mode quiet"
     loop h out ss true
+  else if t.startsWith "mode wscale " then
+    -- the implementation scales its floating-point weights; the model's exact arithmetic is scale-free
+    out.putStrLn ("> " ++ t)
+    loop h out ss quiet
   else if t == "mode verbose" then
     out.putStrLn "> mode verbose"
     loop h out ss false
